@@ -270,6 +270,13 @@ func (c *conn) handleMutate(in *inEnvelope) error {
 	c.mu.Lock()
 	defer c.mu.Unlock()
 
+	// A mutation is tracked in c.subscriptions under its id until it has run. Taking
+	// the id of a live subscription (or of a mutation still in flight) would replace
+	// that entry: its rerunner could then never be stopped or closed again.
+	if _, ok := c.subscriptions[id]; ok {
+		return NewSafeError("duplicate subscription")
+	}
+
 	tags := map[string]string{"url": c.url, "query": mutate.Query, "queryVariables": mustMarshalJson(mutate.Variables), "id": id}
 
 	query, err := Parse(mutate.Query, mutate.Variables)
